@@ -4,6 +4,10 @@ anyio.Semaphore / anyio.CapacityLimiter on SchedLoop, plus model-independent his
 Case formats (exactly the codecs of the Coq models):
   Sem      [fast, initial_value, max_code(0=None, m+1)] + [c, t]*      c: 0 acquire 1 acquire_nowait 2 release
                                                                         3 Resume 4 Cancel
+           5 acquire() called inside `with CancelScope() as outer: with CancelScope() as inner:` after outer.cancel():
+             checkpoint_if_cancelled() sees the cancelled scope and yields;  6 CheckPasses: the harness (standing for
+             another task) sets inner.shield = True and runs the task's step: the check re-reads the scope chain, finds
+             the cancelled scope cut off and returns normally - acquire() goes on (F46/F53)
            observation per step: [res, value, max_code, tasks_waiting]
   Limiter  [total_code(-1=inf)] + [c, t, x]*   c: 0 acquire_on_behalf_of(x) 1 ..._nowait(x) 2 release_on_behalf_of(x)
                                                   3 Resume 4 Cancel 5 total_tokens = x (-1 = inf) 6 total_tokens = bad[x]
@@ -28,7 +32,8 @@ import tiegen
 DRIVERS = [("sem", "Sem"), ("limiter", "Limiter")]
 
 INF_CODE = 1000000
-SEM_OPS = {0: "acquire", 1: "acquire_nowait", 2: "release", 3: "Resume", 4: "Cancel"}
+SEM_OPS = {0: "acquire", 1: "acquire_nowait", 2: "release", 3: "Resume", 4: "Cancel",
+           5: "acquire_under_cancelled_scope", 6: "CheckPasses"}
 LIM_OPS = {0: "acquire_on_behalf_of", 1: "acquire_on_behalf_of_nowait", 2: "release_on_behalf_of", 3: "Resume",
            4: "Cancel", 5: "set_total_tokens", 6: "set_total_tokens_bad"}
 BAD_TOTALS = [1.5, -1, -math.inf, math.nan, "x"]
@@ -41,7 +46,8 @@ def code_of(outcome) -> int:
         return 5
     kind, val = outcome
     if kind == "ok":
-        return 0
+        # an acquire() made under a cancelled scope whose CancelledError was swallowed by that scope's __exit__
+        return 2 if val == "cancelled" else 0
     if kind == "blocked":
         return 1
     if isinstance(val, CancelledError):
@@ -147,6 +153,8 @@ class SemRun(BaseRun):
         self.reserved: set[int] = set()  # permit reserved, acquire() not returned: fast yield or handed off
         self.cancelled_res: set[int] = set()  # reserved tasks with a cancellation request
         self.fyset: set[int] = set()     # reserved tasks that are in the shielded yield
+        self.ckyield: set[int] = set()   # tasks suspended in the cancellation check at the start of acquire()
+        self.ck_cancel: set[int] = set() # of those: Task.cancel() requested
 
     def header(self):
         return [1 if self.fast_eff else 0, self.init, 0 if self.maxv is None else self.maxv + 1]
@@ -164,10 +172,12 @@ class SemRun(BaseRun):
         en = []
         for t, p in self.world.puppets.items():
             if p.at_decision:
-                en += [(0, t), (1, t), (2, t)]
+                en += [(0, t), (1, t), (2, t), (5, t)]
             else:
                 if self.world.runnable(p):
                     en.append((3, t))
+                    if t in self.ckyield:
+                        en.append((6, t))
                 en.append((4, t))
         return en
 
@@ -195,6 +205,26 @@ class SemRun(BaseRun):
                 sem.release()
             out = w.act(t, cmd)
         elif c == 3:
+            out = w.resume(t)
+        elif c == 5:
+            CancelScope = self.anyio.CancelScope
+
+            async def cmd(p):
+                res = "ok"
+                with CancelScope() as outer:
+                    with CancelScope() as inner:
+                        p.ck_inner = inner
+                        outer.cancel()      # a cancelled scope is now visible to this task
+                        try:
+                            await sem.acquire()
+                        except CancelledError:
+                            res = "cancelled"
+                            raise
+                return res
+            out = w.act(t, cmd)
+        elif c == 6:
+            # another task cuts the waiting task off from the cancelled scope; then the task's step runs
+            w.puppets[t].ck_inner.shield = True
             out = w.resume(t)
         else:
             w.puppets[t].task.cancel()
@@ -232,7 +262,31 @@ class SemRun(BaseRun):
         if k == 8:
             self.hit(f"unexpected exception from {SEM_OPS[c]}({t}): {out[1]!r}")
         mx = self.maxv
-        if c == 0:
+        passed = False
+        if c == 5:
+            # acquire() under a visible cancelled scope: the cancellation check comes first and yields, nothing of
+            # the semaphore is touched (uncontended and contended path alike)
+            self.flags.add("acquire_under_cancelled_scope")
+            if k != 1 or after != before:
+                self.hit(f"acquire() under a cancelled scope: res {k}, state {before}->{after} before the cancellation check (expected: the check yields first, nothing touched)")
+            if k == 1:
+                self.ckyield.add(t)
+                if after[2] > before[2]:        # it queued instead (pre-F53 contended path): an ordinary waiter
+                    self.ckyield.discard(t)
+                    self.waitq.append(t)
+        elif c == 6 and t in self.ckyield:
+            self.ckyield.discard(t)
+            if t in self.ck_cancel:
+                self.ck_cancel.discard(t)
+                if k != 2 or after != before:
+                    self.hit(f"cancelled task {t} in the cancellation check: res {k}, state {before}->{after}")
+            else:
+                passed = True
+                self.flags.add("check_passes_after_yield")
+                if before[0] == 0 or before[2] > 0:
+                    self.flags.add("check_passes_permit_gone_meanwhile")
+        if c == 0 or passed:
+            # (a check that yielded and then returned continues like a fresh acquire(): test and take NOW)
             if before[0] > 0 and before[2] == 0:
                 # uncontended path
                 if after[0] != before[0] - 1:
@@ -292,6 +346,24 @@ class SemRun(BaseRun):
                     self.extra += 1
                     self.flags.add("extra_release")
                 self._released(f"release by {t}", before, after, run_before, run_after)
+        elif c == 4 and t in self.ckyield:
+            self.ck_cancel.add(t)
+            self.flags.add("cancel_in_check_yield")
+            if after != before:
+                self.hit(f"Task.cancel() changed the observable state {before}->{after}")
+        elif c == 3 and t in self.ckyield:
+            if t in self.ck_cancel:
+                self.ck_cancel.discard(t)
+                self.ckyield.discard(t)
+                if k != 2:
+                    self.hit(f"cancelled task {t} in the cancellation check ended with res {k} instead of CancelledError")
+            elif k != 1:
+                self.hit(f"task {t} left the cancellation check (res {k}) although the cancelled scope is still visible")
+                self.ckyield.discard(t)
+            else:
+                self.flags.add("check_spins")
+            if after != before:
+                self.hit(f"the cancellation check of task {t} changed the semaphore {before}->{after}")
         elif c == 4:
             if t in self.waitq:
                 self.cancel_req.add(t)
@@ -343,6 +415,8 @@ class SemRun(BaseRun):
                 self.hit(f"task {t} resumed but the history does not show it blocked in acquire")
         # state clauses
         holders = sum(self.heldc.values())
+        if after[0] < 0:
+            self.hit(f"value {after[0]} is negative: more permits were taken than exist (holders {holders}, reserved {len(self.reserved)})")
         if after[0] > 0 and after[2] > 0:
             self.hit(f"value {after[0]} > 0 with {after[2]} waiting tasks")
         if holders > self.init + self.extra:
@@ -366,7 +440,7 @@ class SemRun(BaseRun):
             for t, p in self.world.puppets.items():
                 if not p.at_decision:
                     if self.world.runnable(p):
-                        self.do(3, t)
+                        self.do(6 if t in self.ckyield else 3, t)
                         progressed = True
                 elif self.heldc[t] > 0 and not (self.maxv is not None and self.sem.value == self.maxv):
                     self.do(2, t)
@@ -746,7 +820,7 @@ def op_possible(r, op) -> bool:
     p = r.world.puppets.get(op[1])
     if p is None:
         return False
-    if op[0] == 3:
+    if op[0] in (3, 6) and isinstance(r, SemRun) or op[0] == 3:
         return (not p.at_decision) and r.world.runnable(p)
     if op[0] == 4:
         return not p.at_decision
@@ -800,7 +874,8 @@ def random_sem(rng, nsteps, adapter=False, fast=None):
     if maxv == 0:
         maxv = rng.choice([None, 1])
     ntasks = rng.choice([2, 3, 3, 4, 5])
-    w = {0: 5, 1: 1.5, 2: 3, 3: 5, 4: rng.choice([0.5, 2, 4]), "extra": rng.choice([0.05, 0.3, 1.0])}
+    w = {0: 5, 1: 1.5, 2: 3, 3: 5, 4: rng.choice([0.5, 2, 4]), 5: rng.choice([0.3, 1.0, 2.5]), 6: 3,
+         "extra": rng.choice([0.05, 0.3, 1.0])}
     r = SemRun(fast, init, maxv, ntasks, adapter)
     with r:
         walk(r, rng, nsteps, w)
@@ -1206,6 +1281,7 @@ def check(tier: str) -> int:
     stage["vm_compute"] = round(time.time() - t0, 1); t0 = time.time()
     # ---- decide ----
     seen_msgs = set()
+    seen_replays = set()
     reported = 0
     for r, msg in monitor_hits:
         key = msg_key(msg)
@@ -1215,6 +1291,10 @@ def check(tier: str) -> int:
         reported += 1
         small = shrink(r, key)
         first = next((m for m in small.mon if msg_key(m) == key), msg)
+        rkey = (json.dumps(small.params(), sort_keys=True), tuple(small.ops))
+        if rkey in seen_replays:        # same minimal history as an earlier class: keep the first headline
+            continue
+        seen_replays.add(rkey)
         rep.violation(first,
                       {"kind": "monitor", "params": small.params(), "ops": small.ops, "quiesce": False,
                        "ops_readable": readable(small), "monitor_messages": small.mon[:6],
@@ -1287,7 +1367,9 @@ def check(tier: str) -> int:
             "wait", "grant_by_release", "grant_by_settotal", "cancel_before_set", "cancel_after_set",
             "cancelled_then_granted", "pass_on", "lower_below_borrowed", "raise_after_lower", "total_zero", "total_inf",
             "double_borrow", "nonborrower_release", "bad_total", "on_behalf_wait", "on_behalf_foreign",
-            "cancel_fastyield_foreign", "dup_waiter_rejected", "dup_waiter_same_cycle_as_cancel"]
+            "cancel_fastyield_foreign", "dup_waiter_rejected", "dup_waiter_same_cycle_as_cancel",
+            "acquire_under_cancelled_scope", "check_passes_after_yield", "check_passes_permit_gone_meanwhile",
+            "cancel_in_check_yield", "check_spins"]
     for n in need:
         if not flags.get(n):
             rep.notes.append(f"generator self-check: predicate {n} never reached")
